@@ -130,6 +130,33 @@ def run(ctx: Ctx) -> None:
                    "a condition such as `N < 4 && (M > 2)` or `sizeof(t[i[0]])` ends the region early or raises")
         ctx.ob("R13.5", f"parser:CxxParser.{fname}|{what} skipped by the bracket counter", ok, msg=why, node=fn, mod=mod, nontrivial=False)
 
+    # ---------------------------------------------------------------- R13.6
+    ctx.rule("R13.6", "ctor-initializer scanner: only ',' separates initializers; '...' is consumed and followed by a fresh token; '{' after an initializer is the body", minimum=3)
+    dc = pm.fn("_discard_ctor_initializer")
+    dcfg = pm.cfg("_discard_ctor_initializer")
+    outer = [n for n in dcfg.nodes if n.kind == "test" and isinstance(n.loop, ast.While) and pm.mod.parent.get(n.loop) is dc]
+    if len(outer) != 1:
+        raise AnalysisError("_discard_ctor_initializer: outer loop anchor vanished")
+    oh = outer[0]
+    conts = [n for n in dcfg.nodes if n.kind == "stmt" and isinstance(n.stmt, ast.Continue) and any(s is oh for s, _ in n.succ)]
+    seps = set()
+    for c in conts:
+        for d, lab in dcfg.control_deps(c):
+            if d.loop is None and lab == "T":
+                seps |= {x.value for x in ast.walk(d.cond) if isinstance(x, ast.Constant) and isinstance(x.value, str)}
+    ctx.ob("R13.6", "parser:CxxParser._discard_ctor_initializer|only ',' restarts the initializer loop", bool(conts) and seps == {","},
+           msg=f"the scanner goes on to another initializer after {sorted(seps)}: a pack expansion `...` that ends the list would make it swallow the function body as an initializer", node=dc, mod=mod)
+    ell = [n for n in dcfg.nodes if n.kind == "test" and n.cond is not None and "'ELLIPSIS'" in norm(n.cond)]
+    ok = len(ell) == 1
+    if ok:
+        ts = [s for s, lab in ell[0].succ if lab == "T"]
+        ok = len(ts) == 1 and ts[0].kind == "stmt" and isinstance(ts[0].stmt, ast.Assign) and any(r and r[0] == "lex" and r[1] in LEX_CONSUME for c, r in pm.node_calls("_discard_ctor_initializer", ts[0]))
+    ctx.ob("R13.6", "parser:CxxParser._discard_ctor_initializer|'...' is skipped by fetching the next token", ok, msg="a trailing `...` is not simply consumed before the ','/'{' decision", node=dc, mod=mod)
+    bodies = [n for n in dcfg.nodes for c, r in pm.node_calls("_discard_ctor_initializer", n) if r == ("self", "_discard_contents") and [getattr(a, "value", None) for a in c.args] == ["{", "}"]]
+    rets = [n for n in dcfg.nodes if n.kind == "stmt" and isinstance(n.stmt, ast.Return)]
+    ok = bool(rets) and all(any(dcfg.dominates(b, r) and any(s is r for s, _ in b.succ) for b in bodies) for r in rets)
+    ctx.ob("R13.6", "parser:CxxParser._discard_ctor_initializer|returns right after discarding the body", ok, msg="the scanner does not return immediately after skipping the function body", node=dc, mod=mod)
+
     # ---------------------------------------------------------------- R13.4
     ctx.rule("R13.4", "_consume_balanced_tokens: keeps every token, pushes the closer of every opener, LIFO stack, returns only when empty", minimum=4)
     fs, steps = linear.analyse(pm, "_consume_balanced_tokens", {"NEWLINE"})
